@@ -839,4 +839,37 @@ theorem C03_valid_doc : C03_valid_doc_full writerModel := by
   intro d h
   exact valid_doc_data d h.1 h.2.1 h.2.2
 
+-- non-vacuity: a concrete schema-expressible scenario with the magnitudes the property names, and its document
+private def n (s : String) (neg : Bool) (a b : Nat) : Num := { repr := s.toList, neg := neg, num := a, den := b }
+private def pt2 (x y : Num) : Pt := { x := x, y := y }
+
+/-- one lanelet of 1e5 m, a static obstacle of length 1e-05 m rotated by 1e-06 rad, one planning problem -/
+def exampleDoc : DocD :=
+  { precision := 4, dt := n "1e-05" false 1 100000, version := "2020a", author := "A", affiliation := "TUM", source := "",
+    benchmark := "ZAM_Test-1_1_T-1", date := "2026-09-29",
+    location := { geoNameId := -999, lat := n "999" false 999 1, lon := n "999" false 999 1, geo := none, env := none },
+    tags := ["urban"],
+    lanelets := [{ id := 1, left := [pt2 (n "0.0" false 0 1) (n "1.0" false 1 1), pt2 (n "100000.0" false 100000 1) (n "1.0" false 1 1)],
+                   right := [pt2 (n "0.0" false 0 1) (n "-1.0" true 1 1), pt2 (n "100000.0" false 100000 1) (n "-1.0" true 1 1)],
+                   lmLeft := some "solid", lmRight := none, pred := [], succ := [1], adjL := none, adjR := none, stop := none,
+                   types := [], oneWay := ["car"], bidir := [], signs := [], lights := [] }],
+    signs := [], lights := [], intersections := [],
+    statics := [{ id := 2, type := "parkedVehicle",
+                  shape := [.rect (n "1e-05" false 1 100000) (n "2.0" false 2 1) (n "1e-06" false 1 1000000) (n "5.0" false 5 1) (n "0.0" false 0 1)],
+                  init := [.time (.exact 0), .position (.point (pt2 (n "5.0" false 5 1) (n "0.0" false 0 1))),
+                           .value "orientation" (.exact (n "1e-06" false 1 1000000))] }],
+    dynamics := [], phantoms := [], envs := [],
+    problems := [{ id := 3,
+                   init := [.time (.exact 0), .position (.point (pt2 (n "0.0" false 0 1) (n "0.0" false 0 1))),
+                            .value "orientation" (.exact (n "0.0" false 0 1)), .value "velocity" (.exact (n "10.0" false 10 1)),
+                            .value "yaw_rate" (.exact (n "0.0" false 0 1)), .value "slip_angle" (.exact (n "0.0" false 0 1))],
+                   goals := [[.time (.interval 1 50), .position (.lanelets [1])]] }] }
+
+set_option maxRecDepth 100000 in
+example : writerModel.Expressible exampleDoc := by show CR.C03.Expressible exampleDoc; decide
+set_option maxRecDepth 100000 in
+example : validDoc schema (docNode exampleDoc) = true := by decide
+
+example : (docNode exampleDoc).attrs.lookup "timeStepSize" = some "0.00001" := by decide
+
 end CR.C03
